@@ -25,6 +25,11 @@
 
 #define GET_TOKEN() (token_type = tokens_get(asm_context, token, TOKENLEN))
 
+// The line ended in the middle of an operand.
+#define NEED_OPERAND() \
+  print_error_unexp(asm_context, token); \
+  return -1
+
 static int get_num(
   AsmContext *asm_context,
   char *token,
@@ -210,7 +215,7 @@ int parse_instruction_6502(AsmContext *asm_context, char *instr)
     // dot suffix
     if (IS_TOKEN(token, '.'))
     {
-      if (GET_TOKEN() == TOKEN_EOL) { break; }
+      if (GET_TOKEN() == TOKEN_EOL) { NEED_OPERAND(); }
 
       if (IS_TOKEN(token, 'b') || IS_TOKEN(token, 'B'))
       {
@@ -234,7 +239,7 @@ int parse_instruction_6502(AsmContext *asm_context, char *instr)
     {
       if (IS_TOKEN(token, '#'))
       {
-        if (GET_TOKEN() == TOKEN_EOL) { break; }
+        if (GET_TOKEN() == TOKEN_EOL) { NEED_OPERAND(); }
 
         if (get_num(asm_context, token, &token_type, &num, &size) == -1)
         {
@@ -254,7 +259,7 @@ int parse_instruction_6502(AsmContext *asm_context, char *instr)
       {
         tokens_push(asm_context, token, token_type);
 
-        if (GET_TOKEN() == TOKEN_EOL) { break; }
+        if (GET_TOKEN() == TOKEN_EOL) { NEED_OPERAND(); }
 
         if (get_num(asm_context, token, &token_type, &num, &size) == -1)
         {
@@ -284,7 +289,7 @@ int parse_instruction_6502(AsmContext *asm_context, char *instr)
       {
         op = OP_IMMEDIATE;
 
-        if (GET_TOKEN() == TOKEN_EOL) { break; }
+        if (GET_TOKEN() == TOKEN_EOL) { NEED_OPERAND(); }
 
         if (get_num(asm_context, token, &token_type, &num, &size) == -1)
         {
@@ -303,22 +308,22 @@ int parse_instruction_6502(AsmContext *asm_context, char *instr)
         else
       if (IS_TOKEN(token, '('))
       {
-        if (GET_TOKEN() == TOKEN_EOL) { break; }
+        if (GET_TOKEN() == TOKEN_EOL) { NEED_OPERAND(); }
 
         if (get_address(asm_context, token, &token_type, &num, &size) == -1)
         {
           return -1;
         }
 
-        if (GET_TOKEN() == TOKEN_EOL) { break; }
+        if (GET_TOKEN() == TOKEN_EOL) { NEED_OPERAND(); }
 
         if (IS_TOKEN(token, ','))
         {
-          if (GET_TOKEN() == TOKEN_EOL) { break; }
+          if (GET_TOKEN() == TOKEN_EOL) { NEED_OPERAND(); }
 
           if (IS_TOKEN(token, 'x') || IS_TOKEN(token, 'X'))
           {
-            if (GET_TOKEN() == TOKEN_EOL) { break; }
+            if (GET_TOKEN() == TOKEN_EOL) { NEED_OPERAND(); }
 
             if (IS_TOKEN(token, ')'))
             {
@@ -349,7 +354,7 @@ int parse_instruction_6502(AsmContext *asm_context, char *instr)
 
           if (IS_TOKEN(token, ','))
           {
-            if (GET_TOKEN() == TOKEN_EOL) { break; }
+            if (GET_TOKEN() == TOKEN_EOL) { NEED_OPERAND(); }
 
             if (IS_TOKEN(token, 'y') || IS_TOKEN(token, 'Y'))
             {
@@ -379,7 +384,7 @@ int parse_instruction_6502(AsmContext *asm_context, char *instr)
       {
         tokens_push(asm_context, token, token_type);
 
-        if (GET_TOKEN() == TOKEN_EOL) { break; }
+        if (GET_TOKEN() == TOKEN_EOL) { NEED_OPERAND(); }
 
         if (get_address(asm_context, token, &token_type, &num, &size) == -1)
         {
@@ -427,7 +432,7 @@ int parse_instruction_6502(AsmContext *asm_context, char *instr)
 
         if (IS_TOKEN(token, ','))
         {
-          if (GET_TOKEN() == TOKEN_EOL) { break; }
+          if (GET_TOKEN() == TOKEN_EOL) { NEED_OPERAND(); }
 
           if (IS_TOKEN(token, 'x') || IS_TOKEN(token, 'X'))
           {
